@@ -31,6 +31,10 @@ inductive SOp
   | step (f : Option Nat)
   | reset
   | dev (f : Option Nat) (p : Nat)   -- async_connect / async_accept / async_read_some / async_write_some on a device
+  | conn (f : Nat) (good : Bool) (p : Nat)   -- open() + async_connect: to a listener that drops SYNs (pending) / accepts
+  | acc (f : Nat) (p : Nat)                  -- acceptor::async_accept
+  | readAll (f n p : Nat)                    -- stream_socket::async_read of n bytes
+  | writeBig (f p : Nat)                     -- stream_socket::async_write of far more than the socket buffer takes
   | rawClose (f : Nat)               -- ::close(fd) by the application, then cancel_io_events(fd)
   | reopen (f : Nat)                 -- a new socket pair whose descriptor gets the number device f had
   | bad
@@ -41,7 +45,9 @@ structure Sock where
   pending : Nat := 0
   reopenable : Bool := false  -- closed while run() was executing and no reset() since: its number is still free
   gen : Nat := 0         -- incremented whenever the descriptor behind the device changes (closed, re-opened)
-  kind : Nat := 0        -- 0 socket of a socketpair, 1 read end of a pipe, 2 write end of a pipe
+  kind : Nat := 0        -- 0 socket of a socketpair, 1 read end of a pipe, 2 write end of a pipe, 3 TCP connector, 5 acceptor
+  conn : Nat := 0        -- connector: 1 connect in progress (SYNs dropped), 2 connected
+  wfull : Bool := false  -- the peer never reads and the send buffer is full: not writable any more
   peer : Nat := 0        -- device index of the other end (pipes)
   deriving Inhabited
 
@@ -56,6 +62,14 @@ structure D where
   hprog : List Nat := []
   htimer : List (Option Nat) := []
   hgen : List Nat := []       -- handler id -> generation of the device at the time the wait was issued
+  -- completion functors of stream_socket/acceptor re-arm themselves: every re-arm is a fresh model token that stands
+  -- for the same user handler (`huid`); only the invocation that calls the user's handler is shown in the log
+  huid : List Nat := []       -- model token id -> user handler id (what the harness counts)
+  ukind : List String := []   -- user handler id -> kind as printed
+  hcont : List Nat := []      -- model token id -> 0 plain, 1 async_connector, 2 async_acceptor, 3 reader_all
+  hrem : List Nat := []       -- reader_all: bytes still missing
+  hfd : List Nat := []        -- device of the continuation
+  logVis : List Bool := []    -- per model log entry: did it call the user's handler
   socks : List Sock := []
   tobjs : List TObj := []
   now : Nat := 0
@@ -101,12 +115,17 @@ def parseSOp (w : String) : SOp :=
   | ["step"] => .step none
   | ["step", f] => match f.toNat? with | some f => .step (some f) | none => .bad
   | ["rs"] => .reset
+  | ["xp", f, p] => match f.toNat?, p.toNat? with | some f, some p => .conn f false p | _, _ => .bad
+  | ["xg", f, p] => match f.toNat?, p.toNat? with | some f, some p => .conn f true p | _, _ => .bad
+  | ["xq", f, p] => match f.toNat?, p.toNat? with | some f, some p => .acc f p | _, _ => .bad
+  | ["xW", f, p] => match f.toNat?, p.toNat? with | some f, some p => .writeBig f p | _, _ => .bad
   | [op, f, p] =>
     if op == "xc" || op == "xa" || op == "xr" || op == "xw" then
       match p.toNat? with
       | some p => if f == "x" || f == "y" then .dev none p else (match f.toNat? with | some f => .dev (some f) p | none => .bad)
       | none => .bad
     else .bad
+  | ["xR", f, n, p] => match f.toNat?, n.toNat?, p.toNat? with | some f, some n, some p => .readAll f n p | _, _, _ => .bad
   | ["rx", f] => match f.toNat? with | some f => .rawClose f | none => .bad
   | ["ro", f] => match f.toNat? with | some f => .reopen f | none => .bad
   | _ => .bad
@@ -120,8 +139,23 @@ def closedSock (sk : Sock) (started : Bool) : Sock :=
   { sk with isOpen := false, pending := 0, gen := sk.gen + 1, reopenable := started }
 
 /-- bookkeeping after an op that may have issued a token -/
-def noteIssue (d : D) (before : Nat) (p : Nat) (k : Option Nat) (g : Nat := 0) : D :=
-  if d.st.next > before then { d with hprog := d.hprog ++ [p], htimer := d.htimer ++ [k], hgen := d.hgen ++ [g] } else d
+def kindStr : Kind → String
+  | .plain => "p" | .timer d => s!"t:{d}" | .io => "i"
+
+def noteIssue (d : D) (before : Nat) (p : Nat) (k : Option Nat) (g : Nat := 0)
+    (uid : Option Nat := none) (kind : Option String := none) (cont : Nat := 0) (rem : Nat := 0) (fd : Nat := 0) : D :=
+  if d.st.next > before then
+    let u := uid.getD d.ukind.length
+    let tokKind : String :=
+      match (queueToks d.st.queue ++ mapToks d.st.map ++ d.st.timers.map (·.tok)).find? (·.id == before) with
+      | some t => kindStr t.kind
+      | none => "?"
+    { d with hprog := d.hprog ++ [p], htimer := d.htimer ++ [k], hgen := d.hgen ++ [g], huid := d.huid ++ [u],
+             hcont := d.hcont ++ [cont], hrem := d.hrem ++ [rem], hfd := d.hfd ++ [fd],
+             ukind := if uid.isSome then d.ukind else d.ukind ++ [kind.getD tokKind] }
+  else d
+
+def uidOf (d : D) (id : Nat) : Nat := d.huid.getD id id
 
 /-- ops that may be issued from anywhere (driving thread or inside a handler) -/
 def doOp (d : D) : SOp → D
@@ -141,7 +175,7 @@ def doOp (d : D) : SOp → D
     -- object, still armed (deadline not yet reached by run_one), must complete with `canceled`
     let d := match d.outstanding.getD k none with
       | some h => if !(d.tainted.getD k false) && d.st.timers.any (fun t => t.tok.id == h)
-                  then { d with mustCancel := d.mustCancel ++ [h] } else d
+                  then { d with mustCancel := d.mustCancel ++ [uidOf d h] } else d
       | none => d
     match (d.tobjs.getD k {}).eventId with
     | some slot => { d with staleTc := d.staleTc + (if !slotBusy d.st.timers slot && !d.st.timers.isEmpty then 1 else 0),
@@ -189,11 +223,47 @@ def doOp (d : D) : SOp → D
     let sk := d.socks.getD f {}
     -- socket: the peer (never closed) writes a byte; pipe read end: a byte is written into the write end if it is
     -- still open; on a write end the op means nothing
-    if sk.kind == 0 || (sk.kind == 1 && (d.socks.getD sk.peer {}).isOpen) then
+    if sk.kind == 0 || (sk.kind == 1 && (d.socks.getD sk.peer {}).isOpen) || (sk.kind == 5 && sk.isOpen) then
       { d with socks := d.socks.set f { sk with pending := sk.pending + 1 } }
     else d
   | .dr f => if (d.socks.getD f {}).isOpen then { d with socks := d.socks.set f { (d.socks.getD f {}) with pending := 0 } } else d
   | .stop => { d with st := opStep d.st .stop }
+  | .conn f good p =>
+    -- stream_socket::open(pf_inet); async_connect: dont_block succeeds, connect() returns EINPROGRESS, the connector
+    -- functor is armed for writability
+    let sk := d.socks.getD f {}
+    if f < d.socks.length && sk.kind == 3 && !sk.isOpen then
+      let d := { d with socks := d.socks.set f { sk with isOpen := true, gen := sk.gen + 1, conn := (if good then 2 else 1), reopenable := false } }
+      noteIssue { d with st := opStep d.st (.setIo (some f) .wr true .sysErr) } d.st.next p none (sk.gen + 1) none (some "i") 1 0 f
+    else { d with bad := true }
+  | .acc f p =>
+    let sk := d.socks.getD f {}
+    if f < d.socks.length && sk.kind == 5 then
+      noteIssue { d with st := opStep d.st (.setIo (sockFd d (some f)) .rd true .sysErr) } d.st.next p none sk.gen none (some "i") 2 0 f
+    else { d with bad := true }
+  | .readAll f n p =>
+    let sk := d.socks.getD f {}
+    if f < d.socks.length && sk.kind == 0 then
+      match sockFd d (some f) with
+      | none => noteIssue { d with st := opStep d.st (.postEv .badf 0) } d.st.next p none 0 none (some "i")
+      | some fd =>
+        -- reader_all::run(): read what is there; complete -> post, else wait for readability
+        let take := min sk.pending n
+        let d := { d with socks := d.socks.set f { sk with pending := sk.pending - take } }
+        if take == n then noteIssue { d with st := opStep d.st (.postEv .ok n) } d.st.next p none 0 none (some "i")
+        else noteIssue { d with st := opStep d.st (.setIo (some fd) .rd true .sysErr) } d.st.next p none sk.gen none (some "i") 3 (n - take) f
+    else { d with bad := true }
+  | .writeBig f p =>
+    let sk := d.socks.getD f {}
+    if f < d.socks.length && sk.kind == 0 then
+      match sockFd d (some f) with
+      | none => noteIssue { d with st := opStep d.st (.postEv .badf 0) } d.st.next p none 0 none (some "i")
+      | some fd =>
+        -- the first write_some fills the socket buffer, the second one would block: writer_all waits for writability,
+        -- which never comes (nobody reads the other side)
+        let d := { d with socks := d.socks.set f { sk with wfull := true } }
+        noteIssue { d with st := opStep d.st (.setIo (some fd) .wr true .sysErr) } d.st.next p none sk.gen none (some "i")
+    else { d with bad := true }
   | _ => d
 
 /-- let the loop thread run until it parks in poll or leaves run() -/
@@ -219,7 +289,33 @@ def settle : Nat → D → D
       let d := { d with st := loopStep d.st { now := d.now, selOk := selOk, selErr := .badf } }
       match item with
       | some (.fn t) | some (.ev t _ _) =>
-        let d := { d with execAt := d.execAt ++ [d.now] }
+        let code : Code := match item with | some (.ev _ c _) => c | _ => .ok
+        let fd := d.hfd.getD t.id 0
+        let sk := d.socks.getD fd {}
+        -- completion functors: does this invocation call the user's handler, or consume and re-arm?
+        let (vis, d) : Bool × D :=
+          match d.hcont.getD t.id 0 with
+          | 2 =>   -- async_acceptor: error -> h(e); accept() ok -> h(ok); would block -> async_accept again
+            if code != .ok then (true, d)
+            else if sk.pending > 0 then (true, { d with socks := d.socks.set fd { sk with pending := sk.pending - 1 } })
+            else
+              let before := d.st.next
+              let d := { d with st := opStep d.st (.setIo (sockFd d (some fd)) .rd true .sysErr) }
+              (false, noteIssue d before (d.hprog.getD t.id 0) none sk.gen (some (uidOf d t.id)) none 2 0 fd)
+          | 3 =>   -- reader_all: error -> h(e,count); read; complete -> h(ok,count); else on_readable again
+            if code != .ok then (true, d)
+            else
+              let rem := d.hrem.getD t.id 0
+              let take := min sk.pending rem
+              let d := { d with socks := d.socks.set fd { sk with pending := sk.pending - take } }
+              if take == rem then (true, d)
+              else
+                let before := d.st.next
+                let d := { d with st := opStep d.st (.setIo (sockFd d (some fd)) .rd true .sysErr) }
+                (false, noteIssue d before (d.hprog.getD t.id 0) none sk.gen (some (uidOf d t.id)) none 3 (rem - take) fd)
+          | _ => (true, d)     -- plain handlers; async_connector: every path calls h exactly once
+        let d := { d with execAt := d.execAt ++ [d.now], logVis := d.logVis ++ [vis] }
+        if !vis then settle fuel d else
         -- deadline_timer::waiter::operator(): self->event_id_ = -1, then the user's handler
         let d := match d.htimer.getD t.id none with
           | some k => { d with tobjs := d.tobjs.set k { (d.tobjs.getD k {}) with eventId := none },
@@ -250,11 +346,11 @@ def kernelReport (d : D) (fd : Nat) : Nat :=
   match backendOf d with
   | .select =>
     let r := io.curIn && (sk.pending > 0 || (sk.kind == 1 && !peerOpen))
-    let w := io.curOut && (sk.kind == 0 || sk.kind == 2)
+    let w := io.curOut && ((sk.kind == 0 && !sk.wfull) || sk.kind == 2 || (sk.kind == 3 && sk.conn == 2))
     (if r then 1 else 0) ||| (if w then 2 else 0)
   | _ =>
     let i := if io.curIn && sk.pending > 0 then 1 else 0
-    let o := if io.curOut && (sk.kind == 0 || sk.kind == 2) then 4 else 0
+    let o := if io.curOut && ((sk.kind == 0 && !sk.wfull) || sk.kind == 2 || (sk.kind == 3 && sk.conn == 2)) then 4 else 0
     let h := if sk.kind == 1 && !peerOpen then 16 else 0
     let e := if sk.kind == 2 && !peerOpen then 8 else 0
     i ||| o ||| h ||| e
@@ -273,8 +369,10 @@ def dueNow (d : D) (f : Option Nat) : List Nat :=
   | some fd =>
     let k := kernelReport d fd
     let io := ioGet d.st.map fd
-    (if k &&& readDone (backendOf d) ≠ 0 then io.rd.toList.map (·.id) else [])
-      ++ (if k &&& writeDone (backendOf d) ≠ 0 then io.wr.toList.map (·.id) else [])
+    -- (continuations excepted: whether a report completes a multi-step read/accept depends on how much arrived)
+    let plain := fun (t : Tok) => d.hcont.getD t.id 0 == 0 || d.hcont.getD t.id 0 == 1
+    ((if k &&& readDone (backendOf d) ≠ 0 then (io.rd.toList.filter plain).map (·.id) else [])
+      ++ (if k &&& writeDone (backendOf d) ≠ 0 then (io.wr.toList.filter plain).map (·.id) else [])).map (uidOf d)
 
 /-- select(): a registered descriptor that has been closed makes the call fail with EBADF -/
 def selectFails (d : D) : Bool :=
@@ -312,9 +410,6 @@ def insertSorted (x : Nat) : List Nat → List Nat
   | y :: ys => if x ≤ y then x :: y :: ys else y :: insertSorted x ys
 def sortNat (l : List Nat) : List Nat := l.foldr insertSorted []
 
-def kindStr : Kind → String
-  | .plain => "p" | .timer d => s!"t:{d}" | .io => "i"
-
 def phaseStr : Phase → String
   | .idle => "idle" | .draining => "draining" | .executing => "executing" | .polling => "polling"
   | .stopped => "stopped" | .failed => "failed"
@@ -323,24 +418,28 @@ def allToks (s : St) : List Tok :=
   queueToks s.queue ++ (match s.running with | some q => queueToks [q] | none => []) ++ mapToks s.map
     ++ s.timers.map (·.tok) ++ s.log.map (·.tok) ++ s.dropped ++ s.lost
 
+def dedup (l : List Nat) : List Nat :=
+  l.foldl (fun acc x => if acc.contains x then acc else acc ++ [x]) []
+
 def render (d : D) : String :=
   if d.bad then "bad-op" else
-  let logs := (d.st.log.zip d.execAt).map fun (e, a) => s!"{e.tok.id}:{codeStr e.code}:{a}:L"
-  let kinds := (List.range d.st.next).map fun i =>
-    match (allToks d.st).find? (·.id == i) with
-    | some t => s!"{i}:{kindStr t.kind}"
-    | none => s!"{i}:?"
+  let entries := (d.st.log.zip (d.execAt.zip d.logVis)).filter fun (_, _, v) => v
+  let logs := entries.map fun (e, a, _) => s!"{uidOf d e.tok.id}:{codeStr e.code}:{a}:L"
+  let kinds := (List.range d.ukind.length).map fun i => s!"{i}:{d.ukind.getD i "?"}"
+  let alive := sortNat (dedup ((aliveToks d.st).map (uidOf d)))
   let ph := if !d.started then "notrunning" else phaseStr d.st.phase
-  s!"log {" ".intercalate logs} | alive {" ".intercalate ((sortNat (aliveToks d.st)).map toString)} | kinds {" ".intercalate kinds} | phase {ph} | lost {d.st.lost.length} | stale {d.stale + d.staleTc} | due {" ".intercalate (d.due.map toString)} | mc {" ".intercalate (d.mustCancel.map toString)}"
+  s!"log {" ".intercalate logs} | alive {" ".intercalate (alive.map toString)} | kinds {" ".intercalate kinds} | phase {ph} | lost {d.st.lost.length} | stale {d.stale + d.staleTc} | due {" ".intercalate (d.due.map toString)} | mc {" ".intercalate (d.mustCancel.map toString)}"
 
 def runLoopCase (backend : String) (ws : List String) : String :=
   match ws with
   | nsp :: nt :: rest =>
-    let (nsS, npS) := match nsp.splitOn "+" with
-      | [a, b] => (a, b)
-      | _ => (nsp, "0")
-    match nsS.toNat?, nt.toNat?, npS.toNat? with
-    | some ns, some nt, some np =>
+    let parts := nsp.splitOn "+"
+    let nsS := parts.getD 0 "0"
+    let npS := parts.getD 1 "0"
+    let ncS := parts.getD 2 "0"
+    let naS := parts.getD 3 "0"
+    match nsS.toNat?, nt.toNat?, npS.toNat?, ncS.toNat?, naS.toNat? with
+    | some ns, some nt, some np, some nc, some na =>
       let progWords := rest.takeWhile (· ≠ "S")
       let script := (rest.dropWhile (· ≠ "S")).drop 1
       let progs := progWords.map fun w =>
@@ -349,10 +448,12 @@ def runLoopCase (backend : String) (ws : List String) : String :=
         | _ => [SOp.bad]
       let pipes : List Sock := (List.range np).flatMap fun j =>
         [{ kind := 1, peer := ns + 2 * j + 1 }, { kind := 2, peer := ns + 2 * j }]
-      let d : D := { backend := backend, progs := progs, socks := List.replicate ns {} ++ pipes, tobjs := List.replicate nt {},
+      let conns : List Sock := List.replicate nc { kind := 3, isOpen := false }
+      let accs : List Sock := List.replicate na { kind := 5 }
+      let d : D := { backend := backend, progs := progs, socks := List.replicate ns {} ++ pipes ++ conns ++ accs, tobjs := List.replicate nt {},
                      outstanding := List.replicate nt none, tainted := List.replicate nt false }
       render ((script.map parseSOp).foldl topOp d)
-    | _, _, _ => "bad-op"
+    | _, _, _, _, _ => "bad-op"
   | _ => "bad-op"
 
 /-! ### thread pool -/
